@@ -421,6 +421,86 @@ func genTransportSkel(repo string) (string, error) {
 	}
 	fmt.Fprintf(&b, "Definition gen_chan_caps : list (string * N) :=\n  %s.\n\n", coqList(caps))
 
+	// How the bytes of a frame are read.  (1) transport.handleMessage: every
+	// call on the frame reader itself -- a method call whose receiver is the
+	// function's io.Reader parameter, or io.ReadAtLeast / io.ReadFull / a
+	// bufio wrapper given that parameter -- i.e. every read that does not go
+	// through the decoder.  (2) the decoder: every call that reads from d.r,
+	// with the method it is in and whether it stands in a for loop.
+	var direct, drains []string
+	if fd := p.funcDecl("transport", "handleMessage"); fd != nil && fd.Body != nil {
+		readers := map[string]bool{}
+		for _, f := range fd.Type.Params.List {
+			if p.src(f.Type) == "io.Reader" {
+				for _, n := range f.Names {
+					readers[n.Name] = true
+				}
+			}
+		}
+		ast.Inspect(fd.Body, func(n ast.Node) bool {
+			c, ok := n.(*ast.CallExpr)
+			if !ok {
+				return true
+			}
+			if se, ok := c.Fun.(*ast.SelectorExpr); ok {
+				if id, ok := se.X.(*ast.Ident); ok && readers[id.Name] {
+					direct = append(direct, coqStr(p.src(c)))
+					return true
+				}
+			}
+			if p.src(c.Fun) == "newDecoder" {
+				return true
+			}
+			for _, a := range c.Args {
+				if id, ok := a.(*ast.Ident); ok && readers[id.Name] {
+					switch p.src(c.Fun) {
+					case "io.Copy", "io.ReadAll", "ioutil.ReadAll": // reads to EOF: however the bytes are cut
+						drains = append(drains, coqStr(p.src(c)))
+					default:
+						direct = append(direct, coqStr(p.src(c)))
+					}
+				}
+			}
+			return true
+		})
+	} else {
+		direct = append(direct, coqStr("<transport.handleMessage not found>"))
+	}
+	fmt.Fprintf(&b, "Definition gen_handleMessage_direct_reads : list string :=\n  %s.\n\n", coqList(direct))
+	fmt.Fprintf(&b, "Definition gen_handleMessage_drains : list string :=\n  %s.\n\n", coqList(drains))
+	var decReads []string
+	for _, fd := range p.allFuncs() {
+		if fd.Body == nil || recvName(fd) != "decoder" {
+			continue
+		}
+		var walk func(n ast.Node, inLoop bool)
+		walk = func(n ast.Node, inLoop bool) {
+			ast.Inspect(n, func(m ast.Node) bool {
+				switch x := m.(type) {
+				case *ast.ForStmt:
+					if m != n {
+						walk(x.Body, true)
+						return false
+					}
+				case *ast.CallExpr:
+					txt := p.src(x)
+					if wholeWord(txt, "d.r") && !strings.HasPrefix(txt, "newDecoder") {
+						how := "once"
+						if inLoop {
+							how = "in a loop until EOF or error"
+						}
+						decReads = append(decReads, fmt.Sprintf("(%s, %s, %s)",
+							coqStr("decoder."+fd.Name.Name), coqStr(p.src(x.Fun)), coqStr(how)))
+						return false
+					}
+				}
+				return true
+			})
+		}
+		walk(fd.Body, false)
+	}
+	fmt.Fprintf(&b, "Definition gen_decoder_reads : list (string * string * string) :=\n  %s.\n\n", coqList(decReads))
+
 	tctx := "unknown"
 	if fd := p.funcDecl("", "newTunnel"); fd != nil && fd.Body != nil {
 		ast.Inspect(fd.Body, func(n ast.Node) bool {
@@ -852,6 +932,26 @@ func genServerSkel(repo string) (string, error) {
 //
 // Nothing is decided here; Sni/DialSkel.v executes the statements
 // symbolically and Sni/ShutdownDialGen.v states what must come out.
+
+// wholeWord: w occurs in s not followed or preceded by an identifier character.
+func wholeWord(s, w string) bool {
+	isID := func(c byte) bool {
+		return c == '_' || (c >= '0' && c <= '9') || (c >= 'a' && c <= 'z') || (c >= 'A' && c <= 'Z')
+	}
+	for i := 0; i+len(w) <= len(s); i++ {
+		if s[i:i+len(w)] != w {
+			continue
+		}
+		if i > 0 && (isID(s[i-1]) || s[i-1] == '.') {
+			continue
+		}
+		if i+len(w) < len(s) && isID(s[i+len(w)]) {
+			continue
+		}
+		return true
+	}
+	return false
+}
 
 type dialWalker struct {
 	p *pkg
